@@ -4,5 +4,7 @@ CONSTANTS
   MaxStmts = 1
   MaxBeginFails = 1
   MaxLog = 0
-INVARIANTS TypeOK StateInv PropertyHolds CommitsIffNil ExactlyOneEnd NilOnlyAfterCommit PanicNeverNil StateMatchesLog
+  BeginOk = {"ok"}
+  Ctx = FALSE
+INVARIANTS TypeOK StateInv PropertyHolds CommitsIffNil ExactlyOneEnd NilOnlyAfterCommit PanicNeverNil StateMatchesLog CtxExcusesNothing
 CHECK_DEADLOCK FALSE
